@@ -22,33 +22,54 @@ fn main() {
     common::redirect_tmpdir();
     let mut mon = Monitor::new(&args);
     let threads = vcore::default_threads();
-    let only = parse_only(&args.extra);
+    let mut only = parse_only(&args.extra);
+    if let Some(f) = &args.replay {
+        // a replay file written by this monitor: re-run the case it names (same VERIF_SEED needed)
+        match std::fs::read_to_string(f).ok().and_then(|t| serde_json::from_str::<serde_json::Value>(&t).ok()) {
+            Some(v) => {
+                let id = &v["replay"]["ident"];
+                let g = |k: &str| id[k].as_u64();
+                only = match (g("shard"), g("world"), g("case")) {
+                    (Some(s), Some(w), Some(c)) => Some(vec![s, w, c]),
+                    (Some(s), None, Some(c)) => Some(vec![s, c]),
+                    _ => None,
+                };
+                if let Some(seed) = v["seed"].as_u64() {
+                    mon.seed = seed;
+                }
+            }
+            None => {
+                eprintln!("mon-client: cannot read replay file {}", f.display());
+                std::process::exit(2);
+            }
+        }
+    }
     match args.prop.as_str() {
         "C10" => {
             let (shards, worlds, per_world) = match args.tier {
-                Tier::Quick => (16u64, 8usize, 60usize),
+                Tier::Quick => (16u64, 10usize, 70usize),
                 Tier::Thorough => (64, 24, 160),
             };
             match &only {
                 Some(o) if o.len() == 3 => {
                     let (s, w, c) = (o[0], o[1] as usize, o[2] as usize);
                     let mut m = mon.fork();
-                    c10::run_shard(s, &mut m, worlds, per_world, Some((w, c)));
+                    c10::run_shard(s, &mut m, worlds, per_world, Some((w, c)), args.tier == Tier::Thorough);
                     mon.merge(m);
                 }
-                _ => vcore::run_shards(&mut mon, shards, threads, |s, m| c10::run_shard(s, m, worlds, per_world, None)),
+                _ => vcore::run_shards(&mut mon, shards, threads, |s, m| c10::run_shard(s, m, worlds, per_world, None, args.tier == Tier::Thorough)),
             }
             common::remove_all_temp(shards);
             mon.finish(
-                "worlds = databases written by the harness (3-40 immutable trios numbered from 0, file sizes 0-8 KiB, 0-2 extra trios beyond the beacon, one world in five with identical file contents, one in eight numbered around 100000); certified list / Merkle root / protocol message from the real CardanoImmutableDigester + CardanoDatabaseSignableBuilder; per world: the untouched directory under every range form (Full, From, UpTo, inner Range), then every directory tampering class (byte flip, truncation, append, deletion, swap of two contents inside / across the range, certified content copied over another name, foreign bytes, extra files, immutable-looking alias names, directory or symlink in place of a file, out-of-range and beyond-beacon tampering, combinations) and every digest-list tampering class (reordered, renamed order-preserving / exchanged names, dropped, added in range / beyond beacon / unparsable, duplicated entry, digest bit flip, digests exchanged, empty, invalid JSON, list updated for a modified file, list renamed with directory rearranged accordingly) with random ranges and allow_missing; digests served as plain JSON (aggregator / cloud) or tar.gz / tar.zst through file:// locations to the real HttpFileDownloader. Non-trivial = the harness's own hashing of the final directory says the request must be rejected (or the served digest values are not the certified sequence), or it is an untouched-directory completeness case; distinct = distinct (signed root, class, range, allow_missing, tampering details, served list).",
+                "worlds = databases written by the harness (3-40 immutable trios numbered from 0, file sizes 0-8 KiB, 0-2 extra trios beyond the beacon, one world in five with identical file contents; thorough tier: plus one dense database of 100000+ trios of 8-byte files, untouched only); certified list / Merkle root / protocol message from the real CardanoImmutableDigester + CardanoDatabaseSignableBuilder; per world: the untouched directory under every range form (Full, From, UpTo, inner Range), then every directory tampering class (byte flip, truncation, append, deletion, swap of two contents inside / across the range, certified content copied over another name, foreign bytes, extra files, immutable-looking alias names, directory or symlink in place of a file, out-of-range and beyond-beacon tampering, combinations) and every digest-list tampering class (reordered, renamed order-preserving / exchanged names, dropped, added in range / beyond beacon / unparsable, duplicated entry, digest bit flip, digests exchanged, empty, invalid JSON, list updated for a modified file, list renamed with directory rearranged accordingly) with random ranges and allow_missing; digests served as plain JSON (aggregator / cloud) or tar.gz / tar.zst through file:// locations to the real HttpFileDownloader. Non-trivial = the harness's own hashing of the final directory says the request must be rejected (or the served digest values are not the certified sequence), or it is an untouched-directory completeness case; distinct = distinct (signed root, class, range, allow_missing, tampering details, served list).",
                 &["sha256 collision resistance", "MKTree of mithril-common trusted to commit to the sequence of digest values", "the certificate itself is taken as authentic (chain verification is C03)", "a Cardano database starts at immutable 0 (Full / UpTo ranges)"],
                 50,
             );
         }
         "C19" => {
             let (shards, per_shard) = match args.tier {
-                Tier::Quick => (16u64, 90usize),
-                Tier::Thorough => (64, 500),
+                Tier::Quick => (16u64, 200usize),
+                Tier::Thorough => (64, 1000),
             };
             match &only {
                 Some(o) if o.len() == 2 => {
